@@ -52,10 +52,19 @@ class NetExecutor(TraceExecutor):
     def node_id(self):
         return self.NODE_ID
 
+    reserve_with_helper = False
+
     def unused_physical(self):
-        """the physical qubit a link layer picks for the next pair: through the executor's own helper, whose contract is to return an
-        unused qubit AND reserve it (a response that is still waiting to be mapped must not lose its qubit to the next one)"""
-        return self._get_unused_physical_qubit()
+        """the physical qubit a link layer picks for the next pair.  Default: the lowest qubit not in use, found by the harness itself
+        and NOT marked (then the executor must mark it when the response is handled).  With `reserve_with_helper` the qubit is taken
+        through the executor's own helper, whose contract is to return an unused qubit AND reserve it (used by C12 and by the
+        concurrent scenario of C13, where several responses are in flight)."""
+        if self.reserve_with_helper:
+            return self._get_unused_physical_qubit()
+        k = 0
+        while k in self._used_physical_qubit_addresses:
+            k += 1
+        return k
 
     def deliver_next(self):
         if not self.deliveries:
